@@ -1,5 +1,5 @@
 CONSTANTS
-  TreeDepth = 2
+  TreeDepth = 1
 SPECIFICATION Spec
 VIEW view
 INVARIANTS StackBalancedAtEnd DepthBounded FlagSoundAtPop NoFlagsWithoutOptimize PushPopMatched
